@@ -3,6 +3,7 @@ package harness
 import (
 	"fmt"
 	"math/rand"
+	"os"
 	"sort"
 	"strings"
 	"testing"
@@ -241,7 +242,7 @@ func runSub(t *testing.T, cfg subCfg) sim.Result {
 			c.step(st)
 		}
 		c.step("sclose")
-		c.step("adv 1000s")
+		c.step("adv 600s")
 		s.Wait()
 		g := sim.Census()
 		sort.Strings(g)
@@ -342,11 +343,25 @@ func subRandom(rng *rand.Rand) subCfg {
 	return c
 }
 
+func subDeadline() []subCfg {
+	var out []subCfg
+	us := time.Microsecond
+	for _, d := range []time.Duration{1 * us, time.Millisecond, time.Second, 300 * time.Second} {
+		just := (d - us).String()
+		out = append(out, subCfg{NCtx: 2, QLen: []int{2, 2}, RecvExp: []time.Duration{d, 0}, Steps: []string{
+			"conn", "sub c0 61", "sub c1 61", "recv c0", "recv c1", "adv " + just, "adv 1us", "pub p1 6101", "recv c0", "recv c0", "adv " + just, "pub p1 6102", "adv 1us", "recv c0", "adv " + d.String()}})
+	}
+	return out
+}
+
 func TestSub(t *testing.T) {
 	out := newOut(t, "sub")
 	defer out.Close()
 	rng := rand.New(rand.NewSource(seed()))
 	cfgs := subScripted()
+	if os.Getenv("VERIF_MIX") == "deadline" {
+		cfgs = subDeadline()
+	}
 	for i := 0; i < count(100, 1500); i++ {
 		cfgs = append(cfgs, subRandom(rng))
 	}
